@@ -70,7 +70,7 @@ AGENT_C11 = {"cmd": "agent", "driver": "AgentDriver", "sections": None, "eval_re
 
 CHECKS = {
     "C01": {
-        "lean": ["DrummerVerif.Props.C01", "DrummerVerif.Props.Witness", "DrummerVerif.Props.WitnessHeal", "DrummerVerif.Props.WitnessQuiet", "DrummerVerif.Props.WitnessTimeline", "DrummerVerif.Props.WitnessFleet", "DrummerVerif.Props.WitnessReplace"],
+        "lean": ["DrummerVerif.Props.C01", "DrummerVerif.Props.Witness", "DrummerVerif.Props.WitnessHeal", "DrummerVerif.Props.WitnessQuiet", "DrummerVerif.Props.WitnessTimeline", "DrummerVerif.Props.WitnessFleet", "DrummerVerif.Props.WitnessReplace", "DrummerVerif.Props.WitnessJoin"],
         "streams": [loopstream(25, 600),
                     AGENT_SCENARIO],
         "rule": RULE_LOOP + " | execute step on real NodeHosts (agent harness, scenario part): every row of the launch / join / restore table the scheduler can produce (launch on a fresh host, join without data, join again after a restart with data, restore with data, restore without data), fenced add / delete, kill, compared with the model's table `instantiate` that the fleet half of the loop model follows (theorem fleet_model_follows_agent_table)",
